@@ -33,6 +33,7 @@ class Gen:
         self.rng, self.max_depth, self.max_leaves, self.allowed = rng, max_depth, max_leaves, allowed
         self.leaves = 0
         self.nodes = 0
+        self.force = {}      # depth -> kind that must be used at the first node generated at that depth
 
     def ok(self, k):
         return self.allowed is None or k in self.allowed
@@ -86,7 +87,7 @@ class Gen:
         """ctx: dict(let=[nodes], err=[nodes], ss=[nodes], copyable=bool)"""
         r = self.rng
         self.nodes += 1
-        if depth >= self.max_depth or self.nodes > 16 or r.random() < 0.18 + 0.1 * depth:
+        if depth not in self.force and (depth >= self.max_depth or self.nodes > 16 or r.random() < 0.18 + 0.1 * depth):
             return self.leaf(vt, ctx)
         cp = ctx.get("copyable", False)
         if vt == V:
@@ -105,6 +106,10 @@ class Gen:
         if not opts:
             return self.leaf(vt, ctx)
         k = r.choices([o[0] for o in opts], [o[1] for o in opts])[0]
+        if depth in self.force:
+            fk = self.force.pop(depth)
+            if fk in [o[0] for o in opts]:
+                k = fk
         d = depth + 1
         sub = lambda t, c=ctx: self.gen(t, d, c)
         if k == "K_UPON_ERROR":
@@ -222,7 +227,7 @@ def cpp(n):
     if k == "K_ALLOCATE": return "unifex::allocate(%s)" % c[0]
     if k == "K_DEFER": return "unifex::defer([=]() mutable { E::call(%d); return %s; })" % (nid, c[0])
     if k == "K_INTO_VARIANT": return "unifex::then(unifex::into_variant(%s), e.ivfn(%d))" % (c[0], nid)
-    if k == "K_WITH_QUERY": return "unifex::with_query_value(%s, sr::verif_tag, long(%d))" % (c[0], nid)
+    if k == "K_WITH_QUERY": return "unifex::with_query_value(%s, sr::verif_tag, sr::QVal(%d))" % (c[0], nid)
     raise AssertionError(k)
 
 
@@ -275,6 +280,27 @@ def main():
         seen |= p
         texts.add(text)
         shapes.append((root, order, text, g.leaves))
+    # targeted shapes: each adaptor that can be re-connected (lvalue connect) directly below retry_when / repeat_effect_until
+    relaunchable_v = ["K_THEN", "K_E2V", "K_UPON_ERROR", "K_LET_VALUE", "K_FINALLY", "K_VIA", "K_ON", "K_SEQUENCE", "K_WHEN_ALL", "K_STOP_WHEN",
+                      "K_UNSTOPPABLE", "K_MATDEMAT", "K_DONE_AS_OPT", "K_RETRY_WHEN", "K_DEFER", "K_INTO_VARIANT", "K_WITH_QUERY"]
+    relaunchable_e = ["K_V2E", "K_LET_VALUE", "K_FINALLY", "K_VIA", "K_ON", "K_SEQUENCE", "K_STOP_WHEN", "K_UNSTOPPABLE", "K_MATDEMAT", "K_REPEAT", "K_DEFER", "K_WITH_QUERY"]
+    for root_kind, vt0, kinds in (("K_RETRY_WHEN", V, relaunchable_v), ("K_REPEAT", E, relaunchable_e)):
+        for k in kinds:
+            if allowed is not None and (k not in allowed or root_kind not in allowed):
+                continue
+            for attempt in range(30):
+                g = Gen(rng, 3, 6, allowed)
+                g.force = {0: root_kind, 1: k}
+                root = g.gen(vt0, 0, {})
+                if root.kind != root_kind or not root.children or root.children[0].kind != k or g.leaves == 0:
+                    continue
+                order = number(root)
+                text = cpp(root)
+                if text in texts or len(text) > 1500:
+                    continue
+                texts.add(text); seen |= pairs(root)
+                shapes.append((root, order, text, g.leaves))
+                break
     os.makedirs(a.out, exist_ok=True)
     for f in os.listdir(a.out):
         if f.startswith(a.prefix + "_") and f.endswith(".cpp"):
